@@ -1,5 +1,7 @@
 import PGV.Props.C01
 import PGV.Proofs.Walker
+import PGV.Proofs.Indep
+import PGV.Proofs.Total
 
 /-!
 # C18 — same rule, same value, same verdict through every entry point
@@ -44,6 +46,14 @@ theorem C18_size_verdict_carrier_indep (ext : Ext) (text obj₁ field₁ obj₂ 
   obtain ⟨run', h2, j2⟩ := C01_verdict ext text obj₂ field₂ v r lo hi m hk hb hm hx
   rw [h1] at h2; cases h2
   exact ⟨run, h1, j1, j2⟩
+
+/-- **every rule of the table**: run on the same rule text and value, the function writes a clause under
+one carrier's names (`T.F`, `map[k]`, `k`, none) exactly when it writes one under another's, and asks
+the same residual question otherwise — the verdict is a function of (rule, value) alone -/
+theorem C18_verdict_carrier_indep (key : Bytes) (run) (h : builtin key = some (.fn run))
+    (e : Ext) (text obj₁ field₁ obj₂ field₂ : Bytes) (v : GoVal) :
+    PGV.Proofs.Indep.Sim (run e text obj₁ field₁ v) (run e text obj₂ field₂ v) :=
+  PGV.Proofs.Indep.Sim_builtinTable (key, .fn run) (PGV.Proofs.Total.lookup_mem _ _ _ h) run rfl e text obj₁ field₁ obj₂ field₂ v
 
 /-! ### percent-encoding -/
 
